@@ -143,13 +143,17 @@ class Heap(object):
 
     def set_children(self, x, lst):
         """t.children = <list value>"""
+        defs = []
         if lst.arr is not None:
             arr = lst.arr
         else:
+            # a fresh array with a defining equation (triggered on its own selects) instead of a lambda term
             j = z3.Int(fresh_name("j"))
-            arr = z3.Lambda([j], lst.get(j).t)
+            arr = z3.Const(fresh_name("kids"), IntArr)
+            defs.append(z3.ForAll([j], z3.Select(arr, j) == lst.get(j).t, patterns=[z3.Select(arr, j)]))
         self.f["child"] = z3.Store(self.f["child"], x.t, arr)
         self.f["nchild"] = z3.Store(self.f["nchild"], x.t, lst.n)
+        return defs
 
     def same(self, other, fields):
         return z3.And(*[self.f[k] == other.f[k] for k in fields]) if fields else z3.BoolVal(True)
